@@ -48,6 +48,8 @@ class Exporter:
     def __init__(self, prog, an, body, argpaths=None, depth=0, argowners=None):
         self.argpaths = argpaths or {}
         self.argowners = argowners or {}
+        self.argcontent = {}
+        self.argfo = {}
         self.depth = depth
         self.prog = prog
         self.an = an
@@ -177,6 +179,8 @@ class Exporter:
     def owner_of(self, e):
         """(adt path, field name) of the innermost ADT field an expression reads, or the enum variant payload."""
         e = peel(e)
+        if e[0] == "arg" and e[1] in self.argfo:
+            return self.argfo[e[1]]
         if e[0] == "field":
             if e[1][0] == "downcast" or peel(e[1])[0] == "downcast":
                 d = e[1] if e[1][0] == "downcast" else peel(e[1])
@@ -240,8 +244,8 @@ class Exporter:
         k = e[0]
         if depth > 8:
             return ("unknown", "depth")
-        if k == "mutlocal" or (e0[0] == "ref" and e0[1][0] == "mutlocal"):
-            pass
+        if k == "arg" and e[1] in self.argcontent:
+            return self.argcontent[e[1]]
         # locate a Vec local (nested buffer)
         ml = find(e0, lambda n: n[0] == "mutlocal")
         if ml and peel(e0, mutlocal=False)[0] == "mutlocal":
@@ -289,20 +293,64 @@ class Exporter:
             return ("constbyte", e[1])
         return ("unknown", canon(e)[:120])
 
-    def vec_local_of(self, e):
+    def wrapper_field(self, ty):
+        """A crate struct that wraps the byte buffer (`struct BeWriter { buf: Vec<u8> }`): name of its Vec<u8> field."""
+        ty = ty.replace("&mut ", "").replace("&", "").strip()
+        adt = self.prog.adts.get(ty)
+        if not adt or adt.get("kind") not in (None, "struct", "Struct") and len(adt["variants"]) != 1:
+            return None
+        vf = [f["name"] for f in adt["variants"][0]["fields"] if f["ty"] == "std::vec::Vec<u8>"] if adt["variants"] else []
+        return vf[0] if len(vf) == 1 else None
+
+    def returns_receiver(self, path, depth=0):
+        """A crate method `fn m(&mut self, ..) -> &mut Self` on a buffer (wrapper) whose result is its receiver,
+        directly or through another such method (`self.put(..)`)."""
+        hb = self.prog.bodies.get(path)
+        if hb is None or depth > 4 or hb.arg_count < 1 or not self._is_buf_ty(hb.local_ty(1)) or not hb.local_ty(0).startswith("&mut"):
+            return False
+        r = peel(self.an.local(hb, 0))
+        while r[0] in ("ref", "deref"):
+            r = r[1]
+        if r == ("arg", 1):
+            return True
+        if r[0] == "call" and r[2] is not None and r[2].local and r[3]:
+            a0 = peel(r[3][0])
+            while a0[0] in ("ref", "deref"):
+                a0 = a0[1]
+            return a0 == ("arg", 1) and self.returns_receiver(r[2].path, depth + 1)
+        return False
+
+    def _is_buf_ty(self, ty):
+        return "Vec<u8>" in ty or self.wrapper_field(ty) is not None
+
+    def vec_local_of(self, e, depth=0):
         """The byte buffer a `&mut v` argument refers to: a Vec local of this body (int) or a `&mut Vec<u8>`
-        parameter (("arg", k))."""
+        parameter (("arg", k)). A crate struct wrapping one Vec<u8> counts as the buffer itself, and a crate method
+        returning its `&mut self` receiver (builder chaining) refers to the receiver's buffer."""
         x = e
         while x[0] in ("ref", "deref"):
             x = x[1]
+        if depth > 80:
+            return None
+        if x[0] == "field" and len(x) > 3 and self.wrapper_field(x[3] or "") == x[2]:
+            return self.vec_local_of(x[1], depth + 1)
+        if x[0] == "call" and x[2] is not None and x[2].local and x[3]:
+            hb = self.prog.bodies.get(x[2].path)
+            if self.returns_receiver(x[2].path):
+                return self.vec_local_of(x[3][0], depth + 1)
+            return None
         if x[0] == "mutlocal":
             inner = x[2]
             while inner[0] in ("ref", "deref"):
                 inner = inner[1]
-            if inner[0] == "arg" and "Vec<u8>" in self.b.local_ty(inner[1]):
+            if inner[0] == "arg" and self._is_buf_ty(self.b.local_ty(inner[1])):
                 return ("arg", inner[1])
+            if inner[0] == "call" and inner[2] is not None and inner[2].local:
+                via = self.vec_local_of(inner, depth + 1)
+                if via is not None:
+                    return via
             return x[1]
-        if x[0] == "arg" and "&mut std::vec::Vec<u8>" in self.b.local_ty(x[1]):
+        if x[0] == "arg" and self.b.local_ty(x[1]).startswith("&mut") and self._is_buf_ty(self.b.local_ty(x[1])):
             return ("arg", x[1])
         return None
 
@@ -321,7 +369,19 @@ class Exporter:
                 ow = self.loop_source_owner(a)
                 if ow[0]:
                     ao[i + 1] = ow
-        return Exporter(self.prog, self.an, cb, ap, self.depth + 1, ao)
+        sub = Exporter(self.prog, self.an, cb, ap, self.depth + 1, ao)
+        for i, a in enumerate(argexprs):
+            if a is None or isinstance(a, list):
+                continue
+            # by-value arguments: what the caller hands over (`w.put(x.to_be_bytes())`, `w.u16(self.count)`)
+            if self.vec_local_of(a) is None:
+                cont = self.content(a)
+                if cont[0] in ("atom", "seq", "bytes", "constbyte"):
+                    sub.argcontent[i + 1] = cont
+                fo = self.owner_of(a)
+                if fo[0]:
+                    sub.argfo[i + 1] = fo
+        return sub
 
     def collect_items(self, call):
         """collect(flat_map / map(iter(X), closure)) -> per-element emissions of the closure's returned buffer."""
@@ -370,6 +430,8 @@ class Exporter:
                 if c is None:
                     continue
                 if c.npath in ("std::vec::Vec::new", "std::vec::Vec::with_capacity") or c.nsyn in ("std::default::Default::default",):
+                    continue
+                if c.local and self._fresh_ctor(c):
                     continue
                 if c.npath in ("std::slice::<impl [T]>::to_vec",):
                     cont = self.content(self.an.op(b, t["args"][0]))
@@ -432,12 +494,38 @@ class Exporter:
         evs.sort(key=lambda x: x["pos"])
         return evs
 
+    def _fresh_ctor(self, c):
+        """A crate constructor of a buffer wrapper whose Vec<u8> starts empty (`BeWriter::new()`)."""
+        hb = self.prog.bodies.get(c.path)
+        if hb is None or hb.arg_count > 1:
+            return False
+        wf = self.wrapper_field(hb.local_ty(0))
+        if wf is None:
+            return False
+        aggs = [s for (_, _, s) in block_aggs(hb) if wf in s["rv"].get("fields", [])]
+        if len(aggs) != 1:
+            return False
+        v = peel(self.an.op(hb, aggs[0]["rv"]["ops"][aggs[0]["rv"]["fields"].index(wf)]), mutlocal=True)
+        return v[0] == "call" and v[2] is not None and (v[2].npath in ("std::vec::Vec::new", "std::vec::Vec::with_capacity") or v[2].nsyn == "std::default::Default::default")
+
+    def _unwrap_finish(self, x):
+        """`w.finish()` / `w.into_inner()`: a crate method that returns the wrapper's Vec<u8> field by value."""
+        if x[0] == "call" and x[2] is not None and x[2].local and len(x[3]) == 1:
+            hb = self.prog.bodies.get(x[2].path)
+            if hb is not None and hb.arg_count == 1:
+                wf = self.wrapper_field(hb.local_ty(1))
+                r = peel(self.an.local(hb, 0), mutlocal=False)
+                if wf and r[0] == "field" and r[2] == wf and peel(r[1]) == ("arg", 1):
+                    return peel(x[3][0], mutlocal=False)
+        return x
+
     def result_local(self):
         """The Vec local that is returned (possibly wrapped in Ok)."""
         ret = self.sl.local(0)
         x = peel(ret, mutlocal=False)
         if x[0] == "agg" and x[2] == "Ok":
             x = peel(x[3][0], mutlocal=False)
+        x = self._unwrap_finish(x)
         if x[0] == "phi":
             for m in x[1]:
                 mm = peel(m, mutlocal=False)
